@@ -13,10 +13,11 @@ CONSTANTS SHAPE, SIZE, ORDER, HIST, DEPTH, K, CK
 Sh == IF SHAPE = "typed" THEN Typed ELSE Generic
 T(x) == x
 \* universes
-TypesU == IF SHAPE = "typed" THEN (IF SIZE = "q" THEN {MAVEN, PYPI, NPM} ELSE {MAVEN, PYPI, NPM, NUGET, GOLANG})
+TypesU == IF SIZE = "seq" THEN {IF SHAPE = "typed" THEN NPM ELSE <<116>>} ELSE
+          IF SHAPE = "typed" THEN (IF SIZE = "q" THEN {MAVEN, PYPI, NPM} ELSE {MAVEN, PYPI, NPM, NUGET, GOLANG})
           ELSE (IF SIZE = "q" THEN {<<116>>, <<84,46,49,43>>, <<33>>} ELSE {<<116>>, <<84,46,49,43>>, <<33>>, <<>>, <<49,45>>})
 NsU == IF SIZE = "q" THEN {<<>>, <<97>>, <<47>>, <<46>>} ELSE {<<>>, <<97>>, <<47>>, <<46>>, <<46,46,47,46>>, <<97,47,47,66>>, <<233,47,64>>}
-NameU == IF SIZE = "q" THEN {<<>>, <<110>>, <<65,95,46,98>>} ELSE {<<>>, <<110>>, <<65,95,46,98>>, <<47,63,35>>, <<453,45,45>>}
+NameU == IF SIZE = "seq" THEN {<<110>>} ELSE IF SIZE = "q" THEN {<<>>, <<110>>, <<65,95,46,98>>} ELSE {<<>>, <<110>>, <<65,95,46,98>>, <<47,63,35>>, <<453,45,45>>}
 VerU == IF SIZE = "q" THEN {<<>>, <<49>>} ELSE {<<>>, <<49>>, <<64,37>>}
 SubU == IF SIZE = "q" THEN {<<>>, <<115>>, <<46,47,46,46>>} ELSE {<<>>, <<115>>, <<46,47,46,46>>, <<97,47,35>>}
 KeyU == IF SIZE = "q" THEN {<<107>>, <<75>>, <<33>>} ELSE {<<107>>, <<75>>, <<33>>, <<>>, <<97,46,98>>}
@@ -26,7 +27,12 @@ CkTextU == {<<66,58,48,65,44,97,58,102,70>>, <<122,122>>, <<>>, <<97,58>>}     \
 \* typed checksum values (sequences of insert_raw calls): empty, one entry, case-duplicate, odd hex
 CkTypedU == {<<>>, << <<<<83,72,65>>, <<48,65>>>> >>, << <<<<97>>, <<48,48>>>>, <<<<65>>, <<49,49>>>> >>, << <<<<97>>, <<48>>>> >>}
 
-Ops == {<<"with_package_type", t>> : t \in TypesU}
+\* SIZE = "seq": a tiny op set (four keys whose order separates the comparators, set and unset) explored
+\* exhaustively as call sequences (HIST = TRUE, breadth-first): order after interleaved inserts and removals
+SeqOps == {<<"with_qualifier", k, v>> : k \in {<<107>>, <<75,95>>, <<107,97>>, <<122>>}, v \in {<<49>>}}
+          \cup {<<"without_qualifier", k>> : k \in {<<75>>, <<107,95>>, <<107,97>>}}
+Ops == IF SIZE = "seq" THEN SeqOps ELSE
+       {<<"with_package_type", t>> : t \in TypesU}
        \cup {<<"with_namespace", s>> : s \in NsU} \cup {<<"without_namespace">>}
        \cup {<<"with_name", s>> : s \in NameU}
        \cup {<<"with_version", s>> : s \in VerU} \cup {<<"without_version">>}
